@@ -153,6 +153,26 @@ def subsMapping (g : CGraph ε) (f : Node ε → Node ε) : List (Node ε × Nod
 def subsGraph (g : CGraph ε) (rate : ε → ε) (f : Node ε → Node ε) : Except Err (CGraph ε) :=
   relabelE (g.mapRates rate) (subsMapping g f)
 
+/-! #### `subs` with the substitution itself: a map `σ` on expressions applied to every field -/
+
+/-- `Dose.subs` -/
+def Dose.mapExpr (σ : ε → ε) : Dose ε → Dose ε
+  | .bolus a i => .bolus (σ a) i
+  | .infusion a i r d => .infusion (σ a) i (r.map σ) (d.map σ)
+
+/-- `Compartment.subs`: every expression field substituted (the doses are taken from the `doses` property,
+    i.e. re-sorted infusions first); the name stays -/
+def Comp.mapExpr (σ : ε → ε) (c : Comp ε) : Comp ε :=
+  { name := c.name, amount := σ c.amount, doses := c.dosesView.map (Dose.mapExpr σ), input := σ c.input,
+    lagTime := σ c.lagTime, bioavailability := σ c.bioavailability }
+
+def Node.mapExpr (σ : ε → ε) : Node ε → Node ε
+  | .output => .output
+  | .comp c => .comp (c.mapExpr σ)
+
+/-- `CompartmentalSystem.subs(σ)`: every rate and every compartment substituted -/
+def subsSigma (g : CGraph ε) (σ : ε → ε) : Except Err (CGraph ε) := subsGraph g σ (Node.mapExpr σ)
+
 /-! #### queries of `CompartmentalSystem` -/
 
 def specialNames : List String := ["METABOLITE", "EFFECT", "COMPLEX", "RESPONSE"]
